@@ -4,9 +4,9 @@ From Coq Require Import QArith Lia.
 From Verif Require Import Prelude Model.Sheet Proofs.Sheet Proofs.Sheet2 Proofs.Sheet3.
 Open Scope Z_scope.
 
-(* rows that pass every sanity rule, have well-formed site names, no link from a site to itself, and whose FUSED
-   sites have degree 2 and no Eqpt row (the three regions where convert.py itself misbehaves, see DESIGN/known
-   findings); stated on the node list after the ILA -> ROADM correction *)
+(* rows that pass every sanity rule, have well-formed site names, and whose FUSED sites have no Eqpt row (the
+   region where convert.py neither rejects nor converts properly, open finding C20-eqpt-on-fused); stated on the
+   node list after the ILA -> ROADM correction *)
 Record good (ns : list node) (ls : list link) (es : list eqpt) : Prop := mkGood {
   g_cities : NoDup (cities ns);
   g_links : links_distinct ls;
@@ -46,13 +46,14 @@ Proof.
   - right. apply pair_key_inj in E; assumption.
 Qed.
 
-Lemma sane_good : forall ns ls es, sane ns ls es -> no_loops ls ->
+Lemma sane_good : forall ns ls es, sane ns ls es ->
   (forall c, In c (cities ns) -> name_ok c = true) ->
-  (forall n, In n ns -> n_type n = TFused ->
-     length (links_of (n_city n) ls) = 2%nat /\ eqpts_of (n_city n) es = []) ->
+  (forall n, In n ns -> n_type n = TFused -> eqpts_of (n_city n) es = []) ->
   good (map (correct_type ls) ns) ls es.
 Proof.
-  intros ns ls es S Hl Hn Hf. destruct S as [S1 S2 S3 S4 S5 S6 S7 S8].
+  intros ns ls es S Hn Hf0. destruct S as [Hl S1 S2 S3 S4 S5 S6 S7 S8 S9].
+  assert (Hf : forall n, In n ns -> n_type n = TFused ->
+                 length (links_of (n_city n) ls) = 2%nat /\ eqpts_of (n_city n) es = []) by (intros; split; auto).
   assert (Hback : forall m, In m (map (correct_type ls) ns) -> exists n, In n ns /\ m = correct_type ls n).
   { intros m Hm. apply in_map_iff in Hm. destruct Hm as [n [E I]]. exists n. split; [exact I | symmetry; exact E]. }
   constructor; try rewrite cities_correct; try assumption.
